@@ -21,6 +21,9 @@ type ctlCase struct {
 	Inj    [][2]int `json:"inj,omitempty"` // (before machine cycle t, source 0..4)
 	Cycles int      `json:"cycles"`
 	A      uint8    `json:"a,omitempty"`
+	// Input: machine cycles before which the front end reports a key press to the CPU (cpu.OnInput, the
+	// display's callback). A key press requests no interrupt in this emulator, so it must not end a HALT.
+	Input []int `json:"input,omitempty"`
 }
 
 type ifEvent struct {
@@ -139,6 +142,9 @@ func (e *cpuEnv) runControl(l *explore.Local, c ctlCase) *explore.Fail {
 	wakeStart := 0
 	var lastRegs ref.CPU
 	desc := func() string {
+		if len(c.Input) > 0 {
+			return fmt.Sprintf("code=% x IME=%v IE=%02x IF=%02x inj=%v key-press-before-cycle=%v", c.Code, c.IME, c.IE, c.IF, c.Inj, c.Input)
+		}
 		return fmt.Sprintf("code=% x IME=%v IE=%02x IF=%02x inj=%v", c.Code, c.IME, c.IE, c.IF, c.Inj)
 	}
 	compare := func(t int, what string) *explore.Fail {
@@ -172,6 +178,12 @@ func (e *cpuEnv) runControl(l *explore.Local, c ctlCase) *explore.Fail {
 		for _, in := range c.Inj {
 			if in[0] == t {
 				request(e, in[1])
+			}
+		}
+		for _, it := range c.Input {
+			if it == t {
+				e.m.CPU.OnInput()
+				r.Stopped = false // leaving STOP on a key press is the callback's documented purpose
 			}
 		}
 		realB := e.m.CPU.VAtBoundary()
